@@ -24,6 +24,11 @@ def tmax_of(case):
 def form_initial(nodes_idx, lab, form, n):
     """returns the container in the requested form (or None if that form cannot express the set)."""
     labs = [lab(i) for i in nodes_idx]
+    if form in ('tuple', 'frozenset', 'range'):
+        # a hashable container that is itself a node of the graph means that single node ("if it is a node, it is treated as a node")
+        cont = tuple(labs) if form == 'tuple' else (frozenset(labs) if form == 'frozenset' else None)
+        if cont is not None and any(cont == lab(i) for i in range(n)):
+            return None
     if form == 'list':
         return list(labs)
     if form == 'tuple':
@@ -301,12 +306,12 @@ def random_sim_case(r, sim, nmax=14, tmaxes=None):
         k = max(1, min(n, k))
         case['I0'] = sorted(r.sample(range(n), k))
         lab_scheme = desc['labels']
-        forms = [f for f in I0_FORMS if not (f in ('tuple', 'ndarray') and lab_scheme in ('tuple', 'mixed'))]
+        forms = [f for f in I0_FORMS if not (f in ('tuple', 'ndarray') and lab_scheme in gen.CONTAINER_LIKE)]
         case['I0_form'] = r.choice(forms)
         rest = [i for i in range(n) if i not in case['I0']]
         if model == 'SIR' and rest and r.random() < 0.45:
             case['R0'] = sorted(r.sample(rest, r.randint(1, min(3, len(rest)))))
-            case['R0_form'] = r.choice(['list', 'set', 'tuple'] if lab_scheme not in ('tuple', 'mixed') else ['list', 'set'])
+            case['R0_form'] = r.choice(['list', 'set', 'tuple'] if lab_scheme not in gen.CONTAINER_LIKE else ['list', 'set'])
             if sim in ('fast_SIR', 'fast_nonMarkov_SIR') and r.random() < 0.3:
                 # documented as "iterable of nodes": a one-shot iterator (generator, G.neighbors(x)) is an iterable
                 case['R0_form'] = r.choice(['iterator', 'generator'])
